@@ -29,6 +29,9 @@ Positive hygiene (section "Hygiene, positive part"; induction over the model's o
                         flagged `unresolved`, and resolves to the definition-site global
   * `scoping_under_Gd` : under `G.d` every `##`-name free in a stored template (lexical scoping) is a mangled pattern
                         variable: a template-introduced `##x` only occurs in the scope of a binder `##x`
+  * `canon_of_related`, `alpha_of_related` : forms in the hygienic-renaming relation `FR` (template binders `##s` ~ `s%k`
+                        by innermost binder, flagged free identifiers ~ `s%k` when nothing captures them) have the same
+                        canonical form; programs related form by form are α-equivalent
   * `G_iff`            : `G` = conjunction of the seven negated class predicates (K13a, b, c, d, f, g, j)
 Agreement with the R7RS matcher / instantiator (section "Agreement of steel's matcher / instantiator …"):
   * `match_spec`       : for EVERY well-formed pattern list (any nesting, one ellipsis per list over any
@@ -41,7 +44,7 @@ Agreement with the R7RS matcher / instantiator (section "Agreement of steel's ma
 STILL NOT proved: `hygiene_partial : G prog → expandM prog ≈α expandS prog` (statement kept: `HygienePartial`), and
 the full `InstantiateSpec`.  Missing: (1) instantiator agreement for
 sub-templates followed by an ellipsis (`(k v) ...`: `findWidth` / `iterEnv` vs the drivers of `specInst`, plus the
-fact that `visit` re-visits what it spliced) and the success direction (M ok ⇒ S ok); (2) the correspondence between
+fact that `visit` re-visits what it spliced; the success direction is proved for the fragment: `instantiate_total`); (2) the correspondence between
 the stored template (`##a`, `##tmp`, flags) and the stamped written template of S, and the `canon` simulation for
 ONE instance (single-level hygiene); (3) the simulation between the `##`-names of SEVERAL template instances and
 S's per-step stamps under `G.b`.  (The scoping argument under `G.d` is proved: `scoping_under_Gd`.)
@@ -55,6 +58,8 @@ import SteelVerif.C13.LemmasHygiene7
 import SteelVerif.C13.LemmasSpec4
 import SteelVerif.C13.LemmasScope4
 import SteelVerif.C13.LemmasSkel
+import SteelVerif.C13.LemmasAlpha2
+import SteelVerif.C13.LemmasSpecTotal
 namespace SteelVerif.C13
 set_option linter.unusedSimpArgs false
 set_option linter.unusedVariables false
@@ -538,6 +543,68 @@ theorem stored_template_skeleton (name : Name) (lits : List Name) (pattern body 
     (hc : compileCase name lits pattern body = .ok cs) (hsrc : srcForm body) : cs.body.skel = body.skel :=
   stored_skel name lits pattern body cs hc hsrc
 
+/-! ## The hygienic-renaming relation implies α-equivalence (towards items (2) and (3) of `hygiene_partial`)
+
+`FR ctx lvl t₁ t₂` (LemmasAlpha2) is the judgement "t₁ is what steel's expander produces, t₂ what the ideal expander
+produces, in binder context `ctx`": same structure; user identifiers equal; an occurrence `##s` related to `s%k`
+exactly when the INNERMOST binder `##s` in scope was introduced by expansion step `k` (several instances of
+templates with the same spelling are allowed — this is what `G.b` has to guarantee); a flagged free identifier `s`
+of a template related to `s%k` when neither a user binder `s` (`G.a`) nor the binder `s%k` (`G.d`) is in scope;
+`lambda` / `let` / named `let` / `define` binders related pairwise (user binders equal, template binders
+`##s` ~ `s%k`) — every binding form `canon` knows. -/
+
+/-- `canon_of_related`: related forms have the same canonical form — binders renamed to their nesting level,
+references resolved as steel resolves them after expansion — for every fuel that covers the form (no
+template-introduced top-level definitions: `genv = []`). -/
+theorem canon_of_related (f : Nat) (ctx : List CE) (lvl : Nat) (t1 t2 : Sexp) (h : FR ctx lvl t1 t2)
+    (hc : CtxOK ctx) (hf : 2 * t1.size ≤ f) :
+    canon [] f (envM ctx) lvl t1 = canon [] f (envS ctx) lvl t2 :=
+  (canon_rel f).1 ctx lvl t1 t2 h hc hf
+
+/-- `alpha_of_related`: if the top-level forms of steel's expansion and of the ideal expansion are pairwise in the
+hygienic-renaming relation (and no template introduced a top-level definition), the two programs are α-equivalent
+in the sense of `hygienicAt` (`alphaEq`).  What is left of items (2)/(3) is to show that the expansions ARE related
+(`expandM`/`expandS` outputs under `G`), which needs the instantiator agreement on the stored vs the stamped
+template. -/
+theorem alpha_of_related (a b : List Sexp) (h : FRL [] 0 a b)
+    (ha : introducedGlobals a = []) (hb : introducedGlobals b = []) : alphaEq a b = true :=
+  alphaEq_of_related a b h ha hb
+
+/-- steel's and the ideal expansion of `(let ((tmp 5)) (or2 #f tmp))` -/
+def relM : Sexp :=
+  lst [.kw .let_, lst [lst [sx "tmp", .int 5]],
+    lst [.kw .let_, lst [lst [.id (nm "tmp").hash { unres := false, intro := true }, .bool false]],
+      lst [.kw .if_, .id (nm "tmp").hash .plain, .id (nm "tmp").hash .plain, sx "tmp"]]]
+def relS : Sexp :=
+  lst [.kw .let_, lst [lst [sx "tmp", .int 5]],
+    lst [.kw .let_, lst [lst [.id ((nm "tmp").stamp 1) .plain, .bool false]],
+      lst [.kw .if_, .id ((nm "tmp").stamp 1) .plain, .id ((nm "tmp").stamp 1) .plain, sx "tmp"]]]
+
+/-- they are what the model and the specification compute for `insideG` … -/
+example : (match expandM 40 insideG, expandS 40 insideG with
+    | .ok (a, _), .ok b => Sexp.beqList a [relM] && Sexp.beqList b [relS]
+    | _, _ => false) = true := by decide +kernel
+
+/-- … they are in the relation (a user binder `tmp` and a template binder `##tmp` / `tmp%1` in scope at once) … -/
+theorem relM_relS : FR [] 0 relM relS :=
+  FR.let_ (FRP.cons FR.int rfl FRP.nil)
+    (BL.bind (BAtom.user ⟨rfl, rfl⟩) BL.nil)
+    (FRL.cons
+      (FR.let_ (FRP.cons FR.bool rfl FRP.nil)
+        (BL.bind (BAtom.tb ⟨rfl, rfl⟩) BL.nil)
+        (FRL.cons
+          (FR.app rfl rfl
+            (FRL.cons FR.kw
+              (FRL.cons (FR.tb (l := 1) ⟨rfl, rfl⟩ rfl rfl (by decide))
+                (FRL.cons (FR.tb (l := 1) ⟨rfl, rfl⟩ rfl rfl (by decide))
+                  (FRL.cons (FR.user ⟨rfl, rfl⟩ rfl rfl) FRL.nil)))))
+          FRL.nil))
+      FRL.nil)
+
+/-- … hence α-equivalent, by `alpha_of_related`. -/
+example : alphaEq [relM] [relS] = true :=
+  alpha_of_related [relM] [relS] (FRL.cons relM_relS FRL.nil) (by decide) (by decide)
+
 /-! ## Agreement of steel's matcher / instantiator with the R7RS ones (towards `hygiene_partial`)
 
 `InstantiateSpec` is the full statement (kept visible, NOT proved): for every well-formed pattern list and every
@@ -601,6 +668,19 @@ theorem instantiate_agree (c : ICtx) (env : Env) (fb : Bindings) (senv : SBind) 
     (n : Nat) (t r : Sexp) (n' : Nat) (r' : Sexp) (hM : visit n c env fb t = .ok r) (hS : specInst n' senv t = .ok r')
     (hok : okT t = true) (hba : BindAgree env senv t) (hnh : noHashAtoms c t) : r.unmark = r'.unmark :=
   inst_agree c env fb senv hcv n t r n' r' hM hS hok hba hnh
+
+/-- `instantiate_total` (the success direction): on a template of the fragment `okT` whose variables are used at
+the depth of their binding trees (`dOK`, decidable: a variable in atom position is a leaf or unbound, a variable
+followed by an ellipsis is a node of leaves), if steel's instantiator succeeds then the R7RS instantiator succeeds
+too — with the fuel `2·size+2` the specification gives it — and the results are equal up to the expander flags. -/
+theorem instantiate_total (c : ICtx) (env : Env) (fb : Bindings) (senv : SBind) (hcv : CleanVals c env)
+    (n : Nat) (t r : Sexp) (hM : visit n c env fb t = .ok r)
+    (hok : okT t = true) (hba : BindAgree env senv t) (hnh : noHashAtoms c t) (hd : dOK senv t = true) :
+    ∃ r', specInst (2 * t.size + 2) senv t = .ok r' ∧ r.unmark = r'.unmark :=
+  inst_total c env fb senv hcv n t r hM hok hba hnh hd
+
+example : dOK [(nm "a", .node [.leaf (.int 1), .leaf (.int 2)])] (lst [sx "f", sx "a", Sexp.ell, .int 0]) = true ∧
+    dOK [(nm "a", .node [.leaf (.int 1), .leaf (.int 2)])] (lst [sx "f", sx "a"]) = false := by decide
 
 /-- `(define-syntax m (syntax-rules () [(_ (a ...) (b ...)) (list a ... b ...)]))`, `(m (1 2) (3 4))` -/
 def witnessJ : Prog :=
